@@ -223,7 +223,11 @@ def work_e2e(p):
             open(os.path.join(sd, mname + ".py"), "w").write("\n".join(body))
             mods.append((mname, fnames))
             all_funcs += [(mname, fn) for fn in fnames] + [(mname, "UK.um"), (mname, "twin")]
-        script = [f"import {m}" for m, _ in mods] + ["import textwrap", "", "def main_helper(a):", "    return a", "", "class MainK:", "    def mm(self, a):", "        return a", ""]
+        app = f"vfapp_{spec['name']}"
+        os.makedirs(os.path.join(sd, app))
+        open(os.path.join(sd, app, "__init__.py"), "w").write("")
+        open(os.path.join(sd, app, "__main__.py"), "w").write("def parse(a):\n    return a\n\n\ndef entry(a):\n    return parse(a)\n\n\nif __name__ == '__main__':\n    entry(1)\n")
+        script = [f"import {m}" for m, _ in mods] + [f"from {app}.__main__ import entry as app_entry"] + ["import textwrap", "", "def main_helper(a):", "    return a", "", "class MainK:", "    def mm(self, a):", "        return a", ""]
         for m, fns in mods:
             for fn in fns:
                 if rng.random() < 0.75:
@@ -235,6 +239,11 @@ def work_e2e(p):
             if mode != "allow":  # (with the default filter's cache, an allow-list covering one twin only is the listed finding)
                 script.append(f"{m}.twin({len(called)})")
                 called.add((m, "twin"))
+        if mode == "default":
+            # a package's __main__.py imported under its qualified name is not the __main__ module
+            script.append("app_entry(5)")
+            called.add((f"{app}.__main__", "entry"))
+            called.add((f"{app}.__main__", "parse"))
         script += ["main_helper(1)", "MainK().mm(2)", "textwrap.dedent(' y')", "import json; json.dumps({'a': 1})", ""]
         open(os.path.join(sd, "script.py"), "w").write("\n".join(script))
         mode = spec["mode"]
@@ -271,7 +280,7 @@ def work_e2e(p):
         if main_rows:
             res.violation("main-function-recorded", f"rows for __main__ functions: {sorted(main_rows)}", wit)
         foreign = {x for x in rows if x[0] != "__main__" and x not in accepted}
-        lib = {x for x in foreign if not x[0].startswith("vfuser")}
+        lib = {x for x in foreign if not x[0].startswith(("vfuser", "vfapp"))}
         if lib:
             res.violation("rejected-library-function-recorded", f"rows for library functions: {sorted(lib)[:5]} (mode {mode})", wit)
         rej = foreign - lib
